@@ -719,6 +719,10 @@ struct Cx<'a> {
     cast_targets: Vec<DataType>,
     /// first input seen per panic / skip class
     examples: Mutex<BTreeMap<String, Json>>,
+    /// witnesses forwarded per signature (all occurrences are counted under `violation/<signature>`)
+    forwarded: Mutex<BTreeMap<String, u32>>,
+    /// `--stage miri` only (see `agree`)
+    nan_lenient: bool,
 }
 
 thread_local! {
@@ -781,7 +785,13 @@ impl Cx<'_> {
             self.rep.count(&format!("selftest_detected/{}", LAW_NAMES[law]), 1);
         }
         self.rep.count(&format!("violation/{sig}"), 1);
-        self.rep.violation(sig, witness);
+        // Report keeps at most 25 witnesses: forward two per signature so that every signature is represented
+        let mut g = self.forwarded.lock().unwrap_or_else(|e| e.into_inner());
+        let n = g.entry(sig.to_string()).or_insert(0);
+        *n += 1;
+        if *n <= 2 {
+            self.rep.violation(sig, witness);
+        }
     }
 }
 
@@ -1510,10 +1520,13 @@ fn out_json(o: &Out<ScalarValue>) -> Json {
 }
 
 /// Ok(true): agree, Ok(false): both fail, Err(kind): disagree
-fn agree(a: &Out<ScalarValue>, b: &Out<ScalarValue>) -> Result<bool, &'static str> {
+fn agree(a: &Out<ScalarValue>, b: &Out<ScalarValue>, nan_lenient: bool) -> Result<bool, &'static str> {
     match (a, b) {
         (Out::Ok(x), Out::Ok(y)) => match same(x, y) {
             Ok(true) => Ok(true),
+            // Miri makes the payload/sign of a NaN produced by a float conversion non-deterministic, and
+            // ScalarValue `==` compares float bits: under Miri fall back to the printed value
+            _ if nan_lenient && x.data_type() == y.data_type() && debug_text(x) == debug_text(y) && debug_text(x).contains("NaN") => Ok(true),
             _ => Err("cast-value-mismatch"),
         },
         (Out::Err(_), Out::Err(_)) | (Out::Panic(_), Out::Panic(_)) => Ok(false),
@@ -1558,12 +1571,12 @@ fn law_cast(cx: &Cx, s: &ScalarValue, t: &DataType, safe: bool) {
             cx.panic(&format!("cast:{name}"), &pair, p, &|| json!({"scalar": dbg(s), "from": from.to_string(), "to": t.to_string(), "safe": safe}));
         }
     }
-    match agree(&scalar_side, &engine_side) {
+    match agree(&scalar_side, &engine_side, cx.nan_lenient) {
         Ok(true) => rep.count("cast_both_ok", 1),
         Ok(false) => rep.count("cast_both_fail", 1),
         Err(kind) => cx.violation(&format!("{kind}/{pair}"), witness("ColumnarValue::Array.cast_to", &engine_side)),
     }
-    if agree(&scalar_side, &arrow_side).is_err() {
+    if agree(&scalar_side, &arrow_side, cx.nan_lenient).is_err() {
         // not a verdict: DataFusion wraps the kernel with extra checks on both of its own paths
         rep.count("cast_scalar_differs_from_bare_arrow_kernel", 1);
         rep.seen("cast_bare_arrow_differs_pairs", &format!("{pair} safe={safe}"));
@@ -1581,7 +1594,7 @@ fn law_cast(cx: &Cx, s: &ScalarValue, t: &DataType, safe: bool) {
         let plain = run(|| s.cast_to(t));
         let plain = if cx.corrupt_now(L_CAST) { Out::Err("selftest".into()) } else { plain };
         let again = run(|| s.cast_to_with_options(t, &DEFAULT_CAST_OPTIONS));
-        if let Err(kind) = agree(&plain, &again) {
+        if let Err(kind) = agree(&plain, &again, cx.nan_lenient) {
             cx.violation(
                 &format!("{kind}/cast_to-vs-default-options/{pair}"),
                 json!({"law": "cast", "scalar": dbg(s), "from": from.to_string(), "to": t.to_string(),
@@ -1798,13 +1811,19 @@ fn exec(cx: &Cx, args: &Args, case: Case) {
 }
 
 fn systematic_cases(div: u64, targets: &[DataType]) -> Vec<Case> {
-    let cap = if div > 1 { 2 } else { usize::MAX };
+    // Miri interprets ~1 case per second: keep one data type per type class, one value + NULL each
+    let tiny = div >= 100;
+    let cap = if tiny { 1 } else if div > 1 { 2 } else { usize::MAX };
     let mut cases = vec![];
     let leaf = leaf_types();
-    let mut all: Vec<DataType> = leaf.clone();
-    all.extend(nested_types());
+    let mut all: Vec<(bool, DataType)> = leaf.iter().map(|t| (true, t.clone())).collect();
+    all.extend(nested_types().into_iter().map(|t| (false, t)));
+    if tiny {
+        let mut seen = BTreeSet::new();
+        all.retain(|(_, t)| seen.insert(type_class(t)));
+    }
     let mut pair_idx = 0usize;
-    for (ti, dt) in all.iter().enumerate() {
+    for (ti, (is_leaf, dt)) in all.iter().enumerate() {
         let vals = systematic_values(dt, ti, cap);
         let null = typed_null(dt).ok();
         // rt + hash
@@ -1822,18 +1841,14 @@ fn systematic_cases(div: u64, targets: &[DataType]) -> Vec<Case> {
         mixed.extend(null.clone());
         if !mixed.is_empty() {
             cases.push(Case::Iter(mixed));
-            cases.push(Case::Iter(vec![null.clone().unwrap_or(ScalarValue::Null); 2]));
+            if !tiny {
+                cases.push(Case::Iter(vec![null.clone().unwrap_or(ScalarValue::Null); 2]));
+            }
         }
-        // ord + sort: the statement's type classes only
-        if ti < leaf.len() {
-            let mut v: Vec<ScalarValue> = vals.iter().take(if div > 1 { 5 } else { usize::MAX }).cloned().collect();
-            v.extend(null.clone());
-            cases.push(Case::Order(v));
-        } else {
-            let mut v = vals.clone();
-            v.extend(null.clone());
-            cases.push(Case::Pairs(v));
-        }
+        // ord + sort: the statement's type classes only; other types: `==`/hash on different values
+        let mut v: Vec<ScalarValue> = if *is_leaf && div > 1 { systematic_values(dt, ti, 4) } else { vals.clone() };
+        v.extend(null.clone());
+        cases.push(if *is_leaf { Case::Order(v) } else { Case::Pairs(v) });
         // casts over the lattice
         for t in targets {
             if t == dt || !castable(dt, t) || vals.is_empty() {
@@ -1861,6 +1876,9 @@ fn systematic_cases(div: u64, targets: &[DataType]) -> Vec<Case> {
                 }
             }
         }
+    }
+    if tiny {
+        return cases;
     }
     for s in constructor_scalars() {
         cases.push(Case::Scalar(s, "constructor"));
@@ -1911,6 +1929,8 @@ fn run_check(args: &Args) -> i32 {
         cast_pairs: Mutex::new(BTreeSet::new()),
         cast_targets: cast_targets(),
         examples: Mutex::new(BTreeMap::new()),
+        forwarded: Mutex::new(BTreeMap::new()),
+        nan_lenient: args.stage == "miri",
     };
 
     // documented constructor contract: try_new_null(dt) is a NULL of exactly dt
@@ -1934,12 +1954,17 @@ fn run_check(args: &Args) -> i32 {
     vcommon::par::run(args.workers, sys.into_iter(), |c| exec(&cx, args, c));
 
     // 2. seeded random tail
-    let n_scalars = args.bound("scalars", 40_000, 2_000_000) / div;
-    let n_iters = args.bound("iters", 8_000, 400_000) / div;
-    let n_triples = args.bound("triples", 10_000, 500_000) / div;
-    let n_sorts = args.bound("sorts", 2_000, 100_000) / div;
-    let n_casts = args.bound("casts", 20_000, 1_000_000) / div;
-    let budget = args.tier.pick(50.0, 1100.0);
+    // (Miri: the tail is divided by 1000, not 100 — measured ~1 s per case under the interpreter)
+    let tdiv = if div >= 100 { div * 10 } else { div };
+    // under Miri the tier does not scale the tail (more Miri seeds do not add schedules here either)
+    let bound = |name: &str, q: u64, t: u64| if div >= 100 { args.opt_u64(name, q) } else { args.bound(name, q, t) };
+    let n_scalars = bound("scalars", 40_000, 2_000_000) / tdiv;
+    let n_iters = bound("iters", 8_000, 400_000) / tdiv;
+    let n_triples = bound("triples", 10_000, 500_000) / tdiv;
+    let n_sorts = bound("sorts", 2_000, 100_000) / tdiv;
+    let n_casts = bound("casts", 20_000, 1_000_000) / tdiv;
+    // the soft budget only protects the native tiers; sanitizer stages are bounded by counts
+    let budget = if div > 1 { f64::MAX } else { args.tier.pick(50.0, 1100.0) };
     let tail = (0..n_scalars)
         .map(Case::RandScalar)
         .chain((0..n_iters).map(Case::RandIter))
@@ -1976,7 +2001,7 @@ fn run_check(args: &Args) -> i32 {
     let pairs = cx.cast_pairs.lock().unwrap_or_else(|e| e.into_inner()).len();
     rep.extra("cast_pairs_distinct", json!(pairs));
     rep.extra("panic_and_skip_examples", json!(*cx.examples.lock().unwrap_or_else(|e| e.into_inner())));
-    let want_pairs = if div == 1 { 1_000 } else { 30 };
+    let want_pairs = if div == 1 { 1_000 } else if div < 100 { 100 } else { 20 };
     rep.obligation("cast-pairs", pairs >= want_pairs, &format!("{pairs} distinct (from,to) type-class pairs, want >= {want_pairs}"));
     let equal_pairs: u64 = ["clone", "roundtrip", "sliced", "child-offset", "null-garbage", "cast-back", "ord-pair"].iter().map(|h| rep.get_count(&format!("hash_equal_pairs/{h}"))).sum();
     rep.obligation("hash-equal-pairs", equal_pairs > 0 && rep.get_count("hash_equal_pairs/sliced") > 0, &format!("{equal_pairs} equal pairs hashed"));
